@@ -794,3 +794,96 @@ def rule_P16(ctx):
                 "add_task_state stores a retry entry itself (%s) instead of having it evaluated "
                 "from the record's inbound contexts" % untag(norm_src(n))))
     return res
+
+
+# ====================================================================== G7
+G7_SCOPE = ("conducting", "machines", "composers.native", "specs.native.v1.models", "specs.base")
+
+
+def rule_G7(ctx):
+    """No per-iteration value is carried into the next iteration by accident.  A local that is
+    initialised before a loop, assigned inside it *under a condition* a value computed from the
+    loop variable, never re-initialised at the top of the body, and read inside the loop outside
+    that condition, holds - on an iteration where the condition is false - what an earlier
+    iteration left there (the retry delay of the previous staged entry, say).  Flags (constants),
+    accumulators (+=, append) and values only read after the loop are something else."""
+    res = RuleResult("G7", "no loop-carried per-iteration value: a local set conditionally from "
+                           "the loop variable is not read, in the same loop, outside that "
+                           "condition")
+    prog = ctx.prog
+    n = 0
+    for f in prog.all_functions():
+        if f.module.short not in G7_SCOPE:
+            continue
+        fg = None
+        for loop in ast.walk(f.node):
+            if not isinstance(loop, ast.For):
+                continue
+            lvars = {x.id for x in ast.walk(loop.target) if isinstance(x, ast.Name)}
+            if not lvars:
+                continue
+            # names derived from the loop variable inside the body
+            dep = set(lvars)
+            for _ in range(3):
+                for a_ in ast.walk(loop):
+                    if isinstance(a_, ast.Assign) and any(
+                            isinstance(x, ast.Name) and x.id in dep for x in ast.walk(a_.value)):
+                        for t_ in a_.targets:
+                            if isinstance(t_, ast.Name):
+                                dep.add(t_.id)
+            in_loop = {id(x) for b in loop.body for x in ast.walk(b)}
+            for d in ast.walk(loop):
+                if not (isinstance(d, ast.Assign) and id(d) in in_loop and len(d.targets) == 1
+                        and isinstance(d.targets[0], ast.Name)):
+                    continue
+                v = d.targets[0].id
+                if v in lvars or isinstance(d.value, ast.Constant):
+                    continue
+                if any(isinstance(x, ast.Name) and x.id == v for x in ast.walk(d.value)):
+                    continue  # built from its own previous value: an accumulator, carried on purpose
+                if not any(isinstance(x, ast.Name) and x.id in dep and x.id != v
+                           for x in ast.walk(d.value)):
+                    continue
+                # initialised before the loop, in the same function
+                inits = [i for i in ast.walk(f.node) if isinstance(i, ast.Assign) and any(
+                    isinstance(t, ast.Name) and t.id == v for t in i.targets)
+                    and id(i) not in in_loop and i._ord < loop._ord]
+                if not inits:
+                    continue
+                # every in-loop assignment of v is conditional (relative to the loop body)
+                fg = fg or FuncGuards(prog, f)
+                base = set(fg.atoms(loop.body[0])) if loop.body else set()
+                defs = [x for x in ast.walk(loop) if isinstance(x, ast.Assign) and id(x) in in_loop
+                        and any(isinstance(t, ast.Name) and t.id == v for t in x.targets)]
+                if any(not (set(fg.atoms(x)) - base) and _in_body_directly(loop, x) for x in defs):
+                    continue  # (re)assigned unconditionally on every iteration
+                cond = set(fg.atoms(d)) - base
+                if not cond:
+                    continue
+                n += 1
+                inst = (f.qualname, untag(v), untag(norm_src(loop))[:60])
+                stale = None
+                for u in ast.walk(loop):
+                    if isinstance(u, ast.Name) and u.id == v and isinstance(u.ctx, ast.Load) \
+                            and id(u) in in_loop and u._ord > d._ord:
+                        ug = set(fg.atoms(u)) - base
+                        if not cond <= ug:
+                            stale = u
+                            break
+                if stale is None:
+                    res.holds(inst)
+                else:
+                    res.violated(inst, _f(
+                        "G7", f, stale, "loop-carried value %s" % untag(v),
+                        "%s is set from the loop variable only when %s, is not reset at the top "
+                        "of the loop body, and is read here on every iteration: an iteration "
+                        "for which the condition is false uses the value an earlier iteration "
+                        "left behind" % (untag(v), ", ".join(str(untag(str(a[1]))) for a in cond))))
+    res.facts["candidates"] = n
+    if not n:
+        res.holds(("no conditional per-iteration local",))
+    return res
+
+
+def _in_body_directly(loop, stmt):
+    return any(stmt is s for s in loop.body)
